@@ -123,7 +123,7 @@ func requiredTree(g *gen.G, d int) any {
 	if g.P(0.6) {
 		m := map[string]any{}
 		for i := 1 + g.N(3); i > 0; i-- {
-			m[g.Pick([]string{"a", "b", "c", "d"})] = requiredTree(g, d-1)
+			m[g.Pick([]string{"a", "b", "c", "d", "$Up", "$1"})] = requiredTree(g, d-1)
 		}
 		return m
 	}
@@ -213,7 +213,7 @@ func C17(r *Run) {
 	}
 	wg.Wait()
 	finishEvalFamily(r, "C17", st, sessions, []string{"RequiredModel = Skeleton", "OnlyMarkers", "Idempotent", "AgreesWithBkl"},
-		"model: all 2^7 placements of $required on a 7-position tree (map values, nested map, list entries, map inside a list, two levels below a list entry, below a list nested in a list) x 7 upper layers (some satisfying), each run through the real bklr (output, idempotence) and bkl (agreement); driver: random trees with $required at random map values and list entries to depth 3-4, 1-3 layers in mixed formats; TLC judges the decoded real output against the declarative Skeleton")
+		"model: all 2^8 placements of $required on an 8-position tree (below a non-directive key starting with a dollar sign, map values, nested map, list entries, map inside a list, two levels below a list entry, below a list nested in a list) x 7 upper layers (some satisfying), each run through the real bklr (output, idempotence) and bkl (agreement); driver: random trees with $required at random map values and list entries to depth 3-4, 1-3 layers in mixed formats; TLC judges the decoded real output against the declarative Skeleton")
 }
 
 // modelToolCases runs MC_Tools for a family and hands every printed case to f.
